@@ -71,7 +71,9 @@ func OpenPoller() (poller *Poller, err error) {
 
 // Close closes the poller.
 func (p *Poller) Close() error {
-	_ = unix.Close(p.epa.FD)
+	if p.epa != nil { // nil when OpenPoller failed to create the eventfd
+		_ = unix.Close(p.epa.FD)
+	}
 	return os.NewSyscallError("close", unix.Close(p.fd))
 }
 
